@@ -11,9 +11,11 @@ import (
 	"net/http"
 	"os"
 	"sort"
+	"strconv"
 	"strings"
 	"sync"
 	"sync/atomic"
+	"syscall"
 	"time"
 )
 
@@ -110,6 +112,9 @@ type Backend struct {
 	down  bool
 	conns map[net.Conn]struct{}
 	wg    sync.WaitGroup
+
+	bhFd    int        // raw listening socket while the backend is a black hole
+	bhConns []net.Conn // connections that keep its accept queue full
 }
 
 func NewBackend(name string, g *Group) *Backend {
@@ -215,8 +220,71 @@ func (b *Backend) SetDown(down bool) {
 	panic("could not re-open " + b.addr)
 }
 
+// SetBlackHole(true) turns the backend's address into one where connections neither succeed nor are
+// refused: the listener is replaced by a raw socket with a backlog of zero whose accept queue is kept full
+// and never drained, so the kernel drops every further SYN and a dial hangs until the dialler's own
+// timeout. SetBlackHole(false) restores the normal listener.
+func (b *Backend) SetBlackHole(on bool) {
+	if on {
+		b.SetDown(true)
+		b.mu.Lock()
+		defer b.mu.Unlock()
+		_, portStr, _ := net.SplitHostPort(b.addr)
+		port, _ := strconv.Atoi(portStr)
+		for i := 0; ; i++ {
+			fd, err := syscall.Socket(syscall.AF_INET, syscall.SOCK_STREAM, 0)
+			if err != nil {
+				panic(err)
+			}
+			_ = syscall.SetsockoptInt(fd, syscall.SOL_SOCKET, syscall.SO_REUSEADDR, 1)
+			err = syscall.Bind(fd, &syscall.SockaddrInet4{Port: port, Addr: [4]byte{127, 0, 0, 1}})
+			if err == nil {
+				err = syscall.Listen(fd, 0)
+			}
+			if err != nil {
+				syscall.Close(fd)
+				if i > 200 {
+					panic("black hole: " + err.Error())
+				}
+				time.Sleep(10 * time.Millisecond)
+				continue
+			}
+			b.bhFd = fd
+			break
+		}
+		// fill the accept queue: dial until a dial times out
+		for i := 0; i < 8; i++ {
+			c, err := net.DialTimeout("tcp", b.addr, 150*time.Millisecond)
+			if err != nil {
+				return
+			}
+			b.bhConns = append(b.bhConns, c)
+		}
+		panic("black hole: the accept queue never filled up")
+	}
+	b.mu.Lock()
+	if b.bhFd != 0 {
+		syscall.Close(b.bhFd)
+		b.bhFd = 0
+	}
+	for _, c := range b.bhConns {
+		c.Close()
+	}
+	b.bhConns = nil
+	b.mu.Unlock()
+	b.SetDown(false)
+}
+
 func (b *Backend) Close() {
 	b.mu.Lock()
+	if b.bhFd != 0 {
+		syscall.Close(b.bhFd)
+		b.bhFd = 0
+	}
+	for _, c := range b.bhConns {
+		c.Close()
+	}
+	b.bhConns = nil
 	b.down = true
 	b.ln.Close()
 	for c := range b.conns {
